@@ -23,6 +23,49 @@ class BroadcastError(Unsupported):
     ValueError at run time (a fact about the analysed code, not a limit of the evaluator)."""
 
 
+#: repository functions that were used through a summary instead of being inlined; the rules
+#: that establish each summary are run by props.run whenever it was used
+SUMMARY_USED = set()
+WRAP = 'wrap180'
+
+
+def wrap_atoms(A, x):
+    fa = getattr(A, 'func_arg', {})
+    return [a for a in A.atoms_of(x) if a in fa and fa[a][0] == WRAP]
+
+
+def strip_wraps(A, x):
+    """W(y) -> y wherever W(y) enters linearly with an integer coefficient (W(y) = y + 360 k)"""
+    for _ in range(4):
+        mp = {}
+        for a in wrap_atoms(A, x):
+            try:
+                ds = A.degree_split(x, a)
+            except ValueError:
+                continue
+            c = ds.get(1)
+            if set(ds) <= {0, 1} and c is not None and A.is_const(c) and \
+                    A.const_of(c).denominator == 1:
+                mp[a] = A.func_arg[a][1][0]
+        if not mp:
+            break
+        x = A.subst(x, mp)
+    return x
+
+
+def wrap180(A, x):
+    """Summary of util.to_180_range (established by the WRAP-* rules): W(x) is congruent to x
+    modulo 360 and is the identity near 0.  So an inner reduction is absorbed by an outer one,
+    and the reduction of a quantity that vanishes with the perturbation parameter '@e' is that
+    quantity; anything else stays an uninterpreted W(x)."""
+    if not hasattr(A, 'func'):
+        raise Unsupported('angle reduction in an algebra without uninterpreted functions')
+    x = strip_wraps(A, x)
+    if '@e' in A.atoms_of(x) and A.is_zero(A.subst(x, {'@e': A.const(0)})):
+        return x
+    return A.func(WRAP, x)
+
+
 class Opaque:
     def __init__(self, tag, *parts):
         self.tag, self.parts = tag, parts
@@ -1266,6 +1309,12 @@ class SymEval:
             r = self.hooks.call(self, q, node, args, kwargs, env)
             if r is not NotImplemented and r is not None:
                 return r
+        if q == 'pyins.util.to_180_range' and len(args) == 1 and not kwargs and \
+                isinstance(args[0], (Rat, SArray, int, float)):
+            SUMMARY_USED.add(q)
+            if isinstance(args[0], SArray):
+                return self.emap(lambda x: wrap180(self.A, self.rat(x)), args[0])
+            return wrap180(self.A, self.rat(args[0]))
         if q is not None:
             tgt = self.repo.lookup(q) if q.startswith('pyins') else None
             if isinstance(tgt, FunctionInfo):
